@@ -54,7 +54,12 @@ def main():
         rc, out = sh('/venv/bin/python -m pytest -q -p no:cacheprovider --timeout=900 --continue-on-collection-errors 2>&1 | tail -1', cwd=wt)
         meta['pinned_suite'] = out.strip()
         # copy of /verif
-        sh('mkdir -p /tmp/vseed && rsync -a --delete --exclude .git --exclude replays --exclude .cache --exclude .scratch %s/ /tmp/vseed/' % VERIF)
+        # a copy of the COMMITTED /verif (other engineers may be mid-edit in the working tree) + the build cache
+        sh('rm -rf /tmp/vseed.new && mkdir -p /tmp/vseed.new /tmp/vseed && git -C %s archive HEAD | tar -x -C /tmp/vseed.new '
+           '&& rsync -a --delete --exclude lean/.lake --exclude lean/RTV/Gen --exclude replays --exclude .cache --exclude .scratch '
+           '/tmp/vseed.new/ /tmp/vseed/ && rm -rf /tmp/vseed.new' % VERIF)
+        if not os.path.exists('/tmp/vseed/lean/.lake'):
+            sh('rsync -a %s/lean/.lake /tmp/vseed/lean/ ; rsync -a %s/lean/RTV/Gen /tmp/vseed/lean/RTV/' % (VERIF, VERIF))
         env = dict(os.environ)
         env['VERIF_REPO'] = wt
         for cid in [pid] + extra:
